@@ -42,17 +42,95 @@ def plain_shape(obj, ret):
         implies(V.is_dict(obj), z3.And(V.is_dict(ret), Val.dlen(ret) == Val.dlen(obj), Val.dhas(ret) == Val.dhas(obj))))
 
 
+is_field = z3.Function("is_field", Val, z3.StringSort(), z3.BoolSort())     # name is in __dict__ or an inherited __slots__
+fieldset = z3.Function("fieldset", Val, Val)                                  # the set _find_fields returns
+
+def fieldset_facts(obj):
+    """what a caller may assume about fieldset(obj): a fresh mutable set of str names"""
+    s_ = fieldset(obj)
+    return z3.And(V.is_set(s_), z3.Not(Val.frozen(s_)), Val.slen(s_) >= 0)
+
+
+Contract(
+    "jsonrpclib.jsonclass._find_fields",
+    ensures=[("field_names", lambda c: z3.And(c.returns, c.ret == fieldset(c.a.obj), fieldset_facts(c.a.obj)),
+              ("C07", "C20"))],
+    modifies=[],
+    props=("C07",),
+)
+REGISTRY_JC = __import__("pyvc.contracts", fromlist=["REGISTRY"]).REGISTRY
+REGISTRY_JC["jsonrpclib.jsonclass._find_fields"].assumed = (
+    "assumed, body not verified: class-level reflection (__dict__, __slots__, __bases__) is outside the accepted "
+    "subset; exercised by the bounded stand-in on generated class shapes")
+
+
+def _senv(c):
+    return dump_env_of(c)
+
+
+def _handlers(c):
+    return c.old(c.a.config, "serialize_handlers")
+
+
+def _log_unchanged(c):
+    return c.gnew("xlate_log") == c.gold("xlate_log")
+
+
+def _appended(lst, item):
+    return V.VList(Val.llen(lst) + 1, z3.Store(Val.lat(lst), Val.llen(lst), item))
+
+
+FJ = z3.Int("FREE!j")
+FK = z3.Const("FREE!k", V.Key)
+
+
+def _dump_seq_clause(c):
+    o, r = c.a.obj, c.ret
+    return implies(z3.And(z3.Not(handled(_handlers(c), o)), V.is_seq(o), c.returns),
+                   z3.And(V.is_list(r), Val.llen(r) == V.seq_len(o),
+                          z3.Implies(z3.And(FJ >= 0, FJ < Val.llen(r)),
+                                     z3.Select(Val.lat(r), FJ) == jcd(_senv(c), z3.Select(V.seq_at(o), FJ)))))
+
+
+def _dump_dict_clause(c):
+    o, r = c.a.obj, c.ret
+    return implies(z3.And(z3.Not(handled(_handlers(c), o)), V.is_dict(o), c.returns),
+                   z3.And(V.is_dict(r), Val.dlen(r) == Val.dlen(o), Val.dhas(r) == Val.dhas(o),
+                          z3.Implies(V.dict_has(o, FK),
+                                     z3.Select(Val.dget(r), FK) == jcd(_senv(c), z3.Select(Val.dget(o), FK)))))
+
+
 Contract(
     "jsonrpclib.jsonclass.dump",
     kinds={"config": "obj:" + CONFIG},
-    requires=[("config", lambda c: valid_config(c, c.a.config))],
+    requires=[("config", lambda c: valid_config(c, c.a.config)),
+              ("ignore-is-a-list", lambda c: z3.Or(V.is_none(c.a.ignore), V.is_list(c.a.ignore))),
+              ("names-are-strings", lambda c: z3.And(z3.Or(V.is_none(c.a.serialize_method), V.is_str(c.a.serialize_method)),
+                                                     z3.Or(V.is_none(c.a.ignore_attribute), V.is_str(c.a.ignore_attribute))))],
     ensures=[
-        ("image", lambda c: implies(c.returns, c.ret == jcd(dump_env_of(c), c.a.obj)), ("C15", "C20", "C07")),
+        # trusted determinism: jc_dump names the value dump returns for (configuration, object)
+        ("image", lambda c: implies(c.returns, c.ret == jcd(_senv(c), c.a.obj)), ("assumed",)),
         ("raises_exceptions_only", lambda c: implies(c.raised, c.raises(Exception)), ("C15", "C02")),
-        ("builtin_shape", lambda c: implies(z3.And(c.returns, z3.Not(handled(c.old(c.a.config, "serialize_handlers"), c.a.obj))),
-                                            plain_shape(c.a.obj, c.ret)), ("C15",)),
+        ("handler_precedence", lambda c: implies(handled(_handlers(c), c.a.obj), z3.And(
+            c.gnew("xlate_log") == _appended(c.gold("xlate_log"), tup(
+                V.dict_get(_handlers(c), type_key(c.a.obj)),
+                tup(c.a.obj, eff(c.a.serialize_method, c.old(c.a.config, "serialize_method")),
+                    eff(c.a.ignore_attribute, c.old(c.a.config, "ignore_attribute")),
+                    eff(c.a.ignore, V.empty_list()), c.a.config), V.empty_dict())),
+            implies(c.returns, z3.And(c.gnew("x_kind") == 0, c.ret == c.gnew("x_val"))),
+            implies(c.raised, z3.And(c.gnew("x_kind") == 1, c.exc == c.gnew("x_val"))))), ("C20",)),
+        ("primitive_identity", lambda c: implies(z3.And(z3.Not(handled(_handlers(c), c.a.obj)), V.is_primitive(c.a.obj)),
+                                                 z3.And(c.returns, c.ret == c.a.obj, _log_unchanged(c))), ("C15",)),
+        ("sequence_elementwise", _dump_seq_clause, ("C15", "C20", "C07")),
+        ("dict_valuewise", _dump_dict_clause, ("C15", "C20", "C07")),
+        ("builtin_shape", lambda c: implies(z3.And(c.returns, z3.Not(handled(_handlers(c), c.a.obj))),
+                                            plain_shape(c.a.obj, c.ret)), ("C15", "C14")),
+        ("bean_descriptor", lambda c: implies(
+            z3.And(c.returns, z3.Not(handled(_handlers(c), c.a.obj)), z3.Not(V.is_primitive(c.a.obj)),
+                   z3.Not(V.is_seq(c.a.obj)), z3.Not(V.is_dict(c.a.obj))),
+            z3.And(V.is_dict(c.ret), has(c.ret, "__jsonclass__"))), ("C07",)),
     ],
-    modifies=[Ghost("xlate_log")],
+    modifies=[Ghost("xlate_log"), Ghost("x_kind"), Ghost("x_val")],
     props=("C15", "C20", "C07"),
 )
 
